@@ -3,7 +3,8 @@ the symbol tables of contracts/scopes.py.  Each handler does exactly one thing t
 
   __init__             empty tables, a stack holding only the global scope (a fresh Scope without parent), options kept
   current_scope        the top of the stack
-  push_scope / push_catch   one funcdecl / catchctx call on the current scope; the new scope is registered for the node and pushed
+  push_scope / push_catch   one funcdecl / catchctx call on the current scope; the new scope is pushed (the write-only `scopes` table and `Scope.node` are bookkeeping nothing
+                            reads: left unconstrained)
   pop_scope            the top of the stack is removed and closed, once
   declare              the spelling of the node is declared in the current scope, once
   register_reference   the node is mapped to the current scope, and its spelling referenced there once (count defaulted)
@@ -105,31 +106,31 @@ def build(mod):
             cs.append(Contract(MOD + ':Obfuscator.%s' % meth, params={'self': obf(), 'dispatcher': DISP, 'node': NodeT()},
                                ensures=["calls('%s') == 1 and calls('%s') == 0" % (made, 'catchctx' if made == 'funcdecl' else 'funcdecl'),
                                         "arg_is('%s', 0, node) and nargs('%s') == 1" % (made, made),
-                                        'self.scopes[node] is new_scope()', 'len(self.scopes) == 1',
+                                        
                                         'len(self.stack) == %d and self.stack[-1] is new_scope() and self.stack[-2] is top()' % (n + 1),
                                         "calls('close') == 0 and calls('declare') == 0 and calls('reference') == 0", 'len(self.identifiers) == 0'],
                                modifies=['self.stack', 'self.scopes'], env=env, notes=note))
         cs.append(Contract(MOD + ':Obfuscator.pop_scope', params={'self': obf(), 'dispatcher': DISP, 'node': NodeT()},
                            ensures=["log_order() == ['close']", "nargs('close') == 0", 'len(self.stack) == %d' % (n - 1),
-                                    'len(self.scopes) == 0 and len(self.identifiers) == 0'],
+                                    'len(self.identifiers) == 0'],
                            modifies=['self.stack'], env=env, notes=note))
         cs.append(Contract(MOD + ':Obfuscator.declare', params={'self': obf(), 'dispatcher': DISP, 'node': NodeT()},
                            ensures=["log_order() == ['declare']", "arg_is('declare', 0, node.value) and nargs('declare') == 1",
-                                    'len(self.stack) == %d and len(self.scopes) == 0 and len(self.identifiers) == 0' % n], env=env, notes=note))
+                                    'len(self.stack) == %d and len(self.identifiers) == 0' % n], env=env, notes=note))
         cs.append(Contract(MOD + ':Obfuscator.register_reference', params={'self': obf(), 'dispatcher': DISP, 'node': NodeT()},
                            ensures=["log_order() == ['reference']", "arg_is('reference', 0, node.value) and nargs('reference') == 1",
                                     'self.identifiers[node] is top()', 'len(self.identifiers) == 1',
-                                    'len(self.stack) == %d and len(self.scopes) == 0' % n],
+                                    'len(self.stack) == %d' % n],
                            modifies=['self.identifiers'], env=env, notes=note))
         cs.append(Contract(MOD + ':Obfuscator.shadow_reference', params={'self': obf(), 'dispatcher': DISP, 'node': NodeT()},
                            ensures=["log_order() == ['reference']", "arg_is('reference', 0, node.identifier.value) and nargs('reference') == 1",
-                                    'len(self.stack) == %d and len(self.scopes) == 0 and len(self.identifiers) == 0' % n], env=env, notes=note))
+                                    'len(self.stack) == %d and len(self.identifiers) == 0' % n], env=env, notes=note))
 
     # ---- __init__ ----------------------------------------------------------------------------
     cs.append(Contract(MOD + ':Obfuscator.__init__', params={'self': Obj(mod.Obfuscator, {}), 'obfuscate_globals': Bool, 'shadow_funcname': Bool,
                                                             'reserved_keywords': Const(('abc', 'def'))},
-                       ensures=['len(self.identifiers) == 0 and len(self.scopes) == 0', 'len(self.stack) == 1 and self.stack[0] is self.global_scope',
-                                'type(self.global_scope) is Scope and self.global_scope.parent is None and self.global_scope.node is None',
+                       ensures=['len(self.identifiers) == 0', 'len(self.stack) == 1 and self.stack[0] is self.global_scope',
+                                'type(self.global_scope) is Scope and self.global_scope.parent is None',
                                 'self.global_scope._closed is False and len(self.global_scope.referenced_symbols) == 0 and self.global_scope.children == []',
                                 'self.obfuscate_globals == obfuscate_globals and self.shadow_funcname == shadow_funcname',
                                 "self.reserved_keywords == ('abc', 'def')"], env=dict(env, Scope=mod.Scope)))
